@@ -12,6 +12,7 @@ from .exact import add, sub, mul, neg, dot, cross, nsq, is0, V
 FLATS = ['P', 'L', 'PL', 'S', 'H']
 ALL7 = ['P', 'L', 'PL', 'S', 'H', 'G', 'B']
 TS = [F(-2), F(-1), F(-1, 2), F(0), F(1, 2), F(1), F(3, 2), F(2), F(3)]
+CHUNK_INDEX = None      # set by core.pmap around every chunk: the generator mode is a function of the chunk index
 
 
 class Gen:
@@ -21,13 +22,14 @@ class Gen:
         # axis mode: integer coordinates and axis-aligned frames (what users of Parallelepiped / unit shapes build; defect D12
         # lived there).  One chunk of cases in six runs in this mode; G3D_GEN_AXIS=1 / 0 forces it on / off.
         env = os.environ.get('G3D_GEN_AXIS')
-        self.axis = (env == '1') if env in ('0', '1') else (rng.random() < 1 / 6)
+        ci = CHUNK_INDEX
+        self.axis = (env == '1') if env in ('0', '1') else ((ci % 6 == 2) if ci is not None else (rng.random() < 1 / 6))
         # tiny mode (one chunk in eight; implies axis mode): every coordinate comes from {-2, -1, 0, 1}.  In this corner of the
         # lattice distinct points / planes / polygons with EQUAL CPython hashes abound (hash(-1) == hash(-2)), and coincidences of
         # every kind are frequent; all operations of one chunk run in one process, so state keyed by hashes or leaking between
         # calls meets its collision.  G3D_GEN_TINY=1 / 0 forces it on / off.
         env = os.environ.get('G3D_GEN_TINY')
-        self.tiny = (env == '1') if env in ('0', '1') else (rng.random() < 1 / 8)
+        self.tiny = (env == '1') if env in ('0', '1') else ((ci % 8 == 5) if ci is not None else (rng.random() < 1 / 8))
         if self.tiny:
             self.axis = True
 
@@ -259,6 +261,20 @@ class Gen:
             tw = self.twin_polygon(nmin, nmax)
             if tw is not None:
                 return tw
+        if fr is None and self.tiny and nmin <= 4 and R.random() < 0.12:
+            # a polygon in a coordinate plane at -1 / -2 whose other coordinates are 0 or 1: translating it by one unit along the
+            # axis gives a different polygon with the SAME library hash
+            ax = R.randrange(3)
+            cv = R.choice([-1, -2])
+            sq = [(0, 0), (1, 0), (1, 1), (0, 1)]
+            if nmin <= 3 and R.random() < 0.4:
+                del sq[R.randrange(4)]
+            pts = []
+            for u_, w_ in sq:
+                q = [F(u_), F(w_)]
+                q.insert(ax, F(cv))
+                pts.append(tuple(q))
+            return pts
         for _ in range(1000):
             if fr is None:
                 o = self.ipt(-3, 3)
@@ -489,6 +505,80 @@ class Gen:
 
 def par(u, v):
     return is0(cross(u, v))
+
+
+def _twin_ok(p, ax):
+    return p[ax] in (-1, -2) and all(p[j] in (0, 1) for j in range(3) if j != ax)
+
+
+def _twin_pt(p, ax):
+    q = list(p)
+    q[ax] = F(-3) - p[ax]         # -1 <-> -2
+    return tuple(q)
+
+
+def hash_twin(o):
+    """a DIFFERENT object with the same library hash, when the -1 <-> -2 rule gives one (CPython: hash(-1) == hash(-2), also for
+    floats, and so for products with 0 / 1): a Point / Vector with one coordinate in {-1, -2} and the others in {0, 1}; a Segment
+    with such an end point; an axis-aligned Plane at offset -1 / -2; a ConvexPolygon lying in such a plane with all other
+    coordinates in {0, 1} (translated as a whole).  None when the rule does not apply."""
+    k = o[0]
+    if k in ('P', 'V'):
+        for ax in range(3):
+            if _twin_ok(o[1], ax):
+                return (k, _twin_pt(o[1], ax))
+        return None
+    if k == 'S':
+        for i in (1, 2):
+            for ax in range(3):
+                if _twin_ok(o[i], ax) and _twin_pt(o[i], ax) != o[3 - i]:
+                    q = list(o)
+                    q[i] = _twin_pt(o[i], ax)
+                    return tuple(q)
+        return None
+    if k == 'PL':
+        n = o[2]
+        nz = [j for j in range(3) if n[j] != 0]
+        if len(nz) != 1:
+            return None
+        ax = nz[0]
+        off = o[1][ax]            # the plane is  x_ax = off ; its canonical normal is +e_ax and its canonical offset is off
+        if off not in (-1, -2):
+            return None
+        q = list(o[1])
+        q[ax] = F(-3) - off
+        return ('PL', tuple(q), n)
+    if k == 'G':
+        pts = list(o[1])
+        # one vertex moved within the carrier plane (the plane, and so its hash, stays the same; the vertex hashes collide)
+        if len(set(pts)) == len(pts) >= 3:
+            n = E.polygon_normal(pts) if len(pts) >= 3 else None
+            if n is not None and not is0(n):
+                drop = max(range(3), key=lambda j: abs(n[j]))
+                keep = [j for j in range(3) if j != drop]
+                for i, p in enumerate(pts):
+                    for ax in range(3):
+                        if n[ax] == 0 and _twin_ok(p, ax) and _twin_pt(p, ax) not in pts:
+                            q = pts[:i] + [_twin_pt(p, ax)] + pts[i + 1:]
+                            pr = [(x[keep[0]], x[keep[1]]) for x in q]
+                            if len(set(pr)) == len(pr) and len(E._hull2(pr)) == len(pr):
+                                return ('G', q)
+        for ax in range(3):
+            c = pts[0][ax]
+            if c in (-1, -2) and all(p[ax] == c and all(p[j] in (0, 1) for j in range(3) if j != ax) for p in pts):
+                return ('G', [_twin_pt(p, ax) for p in pts])
+        return None
+    return None
+
+
+def translation_twin(o):
+    """translation t such that o - t is a hash twin of o (so that the object can ARRIVE at o by an in-place move that leaves
+    its hash unchanged); None when there is none"""
+    tw = hash_twin(o)
+    if tw is None or o[0] not in ('P', 'PL', 'G'):
+        return None
+    t = sub(o[1][0], tw[1][0]) if o[0] == 'G' else sub(o[1], tw[1])
+    return t if translate_obj(tw, t) == o or (o[0] == 'G' and [add(p, t) for p in tw[1]] == list(o[1])) else None
 
 
 def translate_obj(o, t):
